@@ -18,7 +18,7 @@ def run(ctx):
     rng = random.Random(ctx.seed * 6007 + 8)
     k = 1 if ctx.tier == "quick" else 4
     fixed = []
-    for g, n in (("g2", 25 * k), ("g3", 20 * k), ("g3x", 8 * k), ("g3y", 12 * k), ("g3z", 15 * k), ("g3v", 14 * k), ("g3u", 8 * k), ("g3dd", 10 * k), ("g4s", 12 * k), ("g4", 10 * k)):
+    for g, n in (("g2", 25 * k), ("g3", 20 * k), ("g3x", 8 * k), ("g3y", 12 * k), ("g3z", 15 * k), ("g3v", 14 * k), ("g3u", 8 * k), ("g3dd", 10 * k), ("g4s", 12 * k), ("g4", 10 * k), ("g3ff", 8 * k)):
         for _ in range(n):
             case = getattr(gens, g)(rng)
             fixed.append(dict(case=case, modes=["plain"], input_seed=rng.randrange(10**9)))
